@@ -16,7 +16,9 @@
   trees the parser can return.
 -/
 import ClairModel.Model.Version
+import ClairModel.Lib.Utf8
 import ClairModel.Gen.Versions
+import ClairModel.Gen.Unicode
 
 namespace ClairModel.Maven
 open ClairModel.Order ClairModel.Version
@@ -38,6 +40,19 @@ inductive MV where
 
 def toLowerAscii (c : Char) : Char := if isUpper c then Char.ofNat (c.toNat + 32) else c
 
+/-- `unicode.ToLower`: ASCII arithmetic below U+0080, otherwise the table
+    regenerated from the standard library (Gen/Unicode.lean).  The texts are
+    lists of runes (code points); `strings.ToLower` maps rune by rune. -/
+def uniToLower (c : Char) : Char :=
+  if c.toNat < 128 then toLowerAscii c else
+  match Gen.Unicode.lowerPairs.find? fun p => p.1 = c.toNat with
+  | some p => Char.ofNat p.2
+  | none => c
+
+/-- `unicode.IsDigit`: the ASCII digits and the other decimal digits (category Nd). -/
+def uniIsDigit (c : Char) : Bool :=
+  Version.isDigit c || (decide (128 ≤ c.toNat) && Utf8.inRanges Gen.Unicode.digitRanges c.toNat)
+
 /-- The `qualifiers` map (regenerated from the source, Gen/Versions.lean):
     the text a known qualifier (already lower-cased) sorts as. -/
 def qualifierText (s : List Char) : Option (List Char) :=
@@ -48,7 +63,7 @@ def unknownQualifier : Nat := Gen.Versions.mavenUnknownQualifier
 /-- `ordString`: the text that `strings.Compare` is applied to — the table
     entry of a known qualifier, `"<unknownQualifier>-<lower-cased text>"` otherwise. -/
 def ordString (s : List Char) : List Char :=
-  let l := s.map toLowerAscii
+  let l := s.map uniToLower
   match qualifierText l with
   | some r => r
   | none => natDigits unknownQualifier ++ '-' :: l
@@ -156,8 +171,9 @@ structure PState where
   atPos : Bool := true               -- i == pos
   deriving Repr
 
-/-- `appendInt`: `big.Int.SetString(b, 10)`; fails on the empty string (the
-    only failure possible here: the builder then holds digits only). -/
+/-- `appendInt`: `big.Int.SetString(b, 10)`; fails on the empty string and on
+    a decimal digit of another script (`unicode.IsDigit` put it into the
+    builder, `SetString` knows ASCII digits only). -/
 def flushInt (st : PState) : Option PState :=
   if st.buf.isEmpty || !st.buf.all Version.isDigit then none
   else some { st with cur := st.cur ++ [.int (natOfDigits st.buf)], buf := [] }
@@ -172,8 +188,9 @@ def flush (st : PState) : Option PState :=
 def descend (st : PState) : PState :=
   { st with outer := st.outer ++ [st.cur], cur := [] }
 
-/-- ASCII only: `unicode.IsDigit` on other runes is outside the model
-    (the generators stay within ASCII). -/
+/-- One rune of the `for i, r := range s` loop.  The text is a list of runes:
+    the driver decodes UTF-8 the way `range` does (ill-formed bytes become
+    U+FFFD, which `WriteRune` then writes out as such). -/
 def stepChar (st : PState) (r : Char) : Option PState :=
   if r = '.' then do
     let st := if st.atPos then { st with buf := st.buf ++ ['0'] } else st
@@ -183,7 +200,7 @@ def stepChar (st : PState) (r : Char) : Option PState :=
     let st := if st.atPos then { st with buf := st.buf ++ ['0'] } else st
     let st ← flush st
     pure { descend st with atPos := true }
-  else if Version.isDigit r then
+  else if uniIsDigit r then
     if !st.isDigit && !st.atPos then
       let st := descend (flushStr st)
       some { st with isDigit := true, buf := st.buf ++ [r], atPos := false }
@@ -229,6 +246,20 @@ def quoteChar (c : Char) : List Char :=
 def renderAtom : Atom → List Char
   | .int n => natDigits n
   | .str s => ['"'] ++ s.flatMap quoteChar ++ ['"']
+
+def hexDigit (n : Nat) : Char := if n < 10 then Char.ofNat (48 + n) else Char.ofNat (87 + n)
+
+/-- Strings as the hex of their UTF-8 bytes (the `TreeHex` hook). -/
+def renderAtomHex : Atom → List Char
+  | .int n => natDigits n
+  | .str s => ['"'] ++ (Utf8.encodeAll s).flatMap (fun b => [hexDigit (b / 16), hexDigit (b % 16)]) ++ ['"']
+
+def renderElemsHex : MV → List (List Char)
+  | .done => []
+  | .item a t => renderAtomHex a :: renderElemsHex t
+  | .sub i => [['['] ++ joinWith [','] (renderElemsHex i) ++ [']']]
+
+def renderHex (m : MV) : List Char := ['['] ++ joinWith [','] (renderElemsHex m) ++ [']']
 
 def renderElems : MV → List (List Char)
   | .done => []
